@@ -152,6 +152,12 @@ def constant_fold_binary_int_op(op: str, left: int, right: int) -> int | float |
 
 def constant_fold_binary_float_op(op: str, left: int | float, right: int | float) -> float | None:
     assert not (isinstance(left, int) and isinstance(right, int)), (op, left, right)
+    # An int operand too large for a float makes every mixed operation raise OverflowError
+    # ("int too large to convert to float"), at run time as well: there is nothing to fold.
+    try:
+        float(left), float(right)
+    except OverflowError:
+        return None
     if op == "+":
         return left + right
     elif op == "-":
